@@ -1,0 +1,45 @@
+//go:build verif
+// +build verif
+
+// Exported wrappers used only by the verification harness (build tag "verif", add-only).
+
+package hc
+
+import (
+	"errors"
+	"time"
+
+	hostpkg "github.com/samaritan-proxy/samaritan/host"
+	"github.com/samaritan-proxy/samaritan/pb/config/hc"
+)
+
+type verifChecker struct{ script func(addr string) bool }
+
+func (c verifChecker) Check(addr string, timeout time.Duration) error {
+	if c.script(addr) {
+		return nil
+	}
+	return errors.New("scripted failure")
+}
+
+// VerifNewMonitor builds a monitor whose check outcomes are scripted.
+func VerifNewMonitor(fall, rise uint32, set *hostpkg.Set, script func(addr string) bool) (*Monitor, error) {
+	m, err := NewMonitor(&hc.HealthCheck{
+		Interval:      time.Hour,
+		Timeout:       time.Second,
+		FallThreshold: fall,
+		RiseThreshold: rise,
+		Checker:       &hc.HealthCheck_TcpChecker{TcpChecker: &hc.TCPChecker{}},
+	}, set, nil)
+	if err != nil || m == nil {
+		return m, err
+	}
+	m.checker = verifChecker{script}
+	return m, nil
+}
+
+// VerifCheck runs one check of one host and updates its status (checkHostAndUpdateStatus).
+func (m *Monitor) VerifCheck(h *hostpkg.Host) { m.checkHostAndUpdateStatus(h) }
+
+// VerifCheckAll runs one round over all hosts of the set (checkHosts).
+func (m *Monitor) VerifCheckAll() { m.checkHosts() }
